@@ -10,7 +10,7 @@ CHECKS = {
    note="L0 is a transcription of WHATWG 13.2.5 with tables generated from independent sources (python html.entities, cp1252). Bounds: 2 (quick) / 3 (thorough) pieces of a 36-piece alphabet from 64 start states; 3/4 pieces of a 12-piece core alphabet; random strings <= 80/200 chars. Longer inputs are sampled, not enumerated.",
    ref="DESIGN.md section 5, C01"),
  "C10": dict(
-   text="TLC checks that the streaming UTF-8 decoder model (carry buffer, try_complete_offsets, process loop, finish) refines lossy decoding per Unicode Table 3-7 for all byte strings over class representatives under every chunking, and that the decode_to_sink loop loses/duplicates nothing for every abstract encoding_rs decoder script; every explored input is replayed on the real Utf8LossyDecoder under all its chunkings, random inputs and all 40 encodings are recorded from the real code and judged by the TLA+ trace specifications (L0 Lossy / logged one-shot decode).",
+   text="TLC checks that the streaming UTF-8 decoder model (carry buffer, try_complete_offsets, process loop, finish) refines lossy decoding per Unicode Table 3-7 for all byte strings over class representatives under every chunking, and that the decode_to_sink loop loses/duplicates nothing for every abstract encoding_rs decoder script; every explored input is replayed on the real Utf8LossyDecoder under all its chunkings, random inputs and all 40 encodings are recorded from the real code and judged by the TLA+ trace specifications (L0 Lossy / logged one-shot decode). Tree clause: markup bytes with ill-formed sequences spliced in are fed through parse_document().from_utf8() in one piece, byte by byte and under random cuts, and the delivered tree is judged by the L0 parser applied to L0 Lossy of the concatenated bytes (Trace_Parse).",
    note="Bounds: byte strings <= 4 (quick) / 5 (thorough) over 10/18 class representatives; abstract decoder scripts over 3/4 input bytes; encoding_rs tables are inputs (one-shot decode logged).",
    ref="DESIGN.md section 5, C10"),
  "C13": dict(
